@@ -1,6 +1,6 @@
 //! C16 — empty, one-observation and constant samples follow the documented contract.
 
-use super::chunky_impls::{QChunk, U};
+use super::chunky_impls::{QChunk, QP, U};
 use super::common::*;
 use super::interval::{ChunkAddSpec, Chunky, Judge};
 use super::{common_assumptions, Plan};
@@ -22,7 +22,7 @@ fn headline(name: &str) -> Option<Stat> {
         "Kurtosis" => Some(Stat::Kurtosis),
         "Min" => Some(Stat::Min),
         "Max" => Some(Stat::Max),
-        "Quantile" => Some(Stat::Quantile),
+        n if n.starts_with("Quantile") => Some(Stat::Quantile),
         _ => None,
     }
 }
@@ -243,6 +243,9 @@ pub fn plan(tier: Tier) -> Plan {
     uni::<U<Min>>(&mut checks, depth.min(100));
     uni::<U<Max>>(&mut checks, depth.min(100));
     uni::<QChunk>(&mut checks, depth);
+    // p at the ends of [0, 1] and close to 1 (the default above is the median)
+    uni::<QP<0>>(&mut checks, depth.min(1000));
+    uni::<QP<3>>(&mut checks, depth.min(1000));
     for x in values() {
         for w in [0., 1e-6, 0.3, 1., 3., 7., 1e6] {
             checks.push(konst::<WeightedMean>((x, w), format!("const=({x:?},{w:?})"), depth.min(1000), weighted_judge::<WeightedMean>()));
